@@ -78,14 +78,21 @@ def run_type(res, T, rng, tier):
                 res.violation(f"C09:default:{T}.{sc.name}", f"fresh {T}().{sc.name} == {got!r}, spec default {want!r}",
                               {"type": T, "controller": sc.name, "got": repr(got), "want": want})
 
+    raw_of = {}
+
     def assign(mode, path, name, value, extra_kw=None):
         """Returns (exception or None, module-or-None)."""
         try:
-            if path == "setattr":
+            if path in ("setattr", "set_raw"):
                 m = cls(**(extra_kw or {}))
                 prev = getattr(m, name)
                 try:
-                    setattr(m, name, value)
+                    if path == "setattr":
+                        setattr(m, name, value)
+                    else:
+                        # the stored-value entry point (what readers and MIDI-style automation use): value given in the
+                        # stored encoding of specs/fileformat.yaml
+                        m.set_raw(name, raw_of[name](value))
                 except Exception as e:
                     return e, m, prev
                 return None, m, prev
@@ -101,9 +108,14 @@ def run_type(res, T, rng, tier):
 
     for strict in (True, False):
         mode = "strict" if strict else "lenient"
-        for path in ("setattr", "constructor"):
+        for path in ("setattr", "constructor", "set_raw"):
             for sc in t.controllers:
                 K = f"{T}.{sc.name}"
+                if path == "set_raw":
+                    if sc.kind not in ("range", "compact", "no_offset"):
+                        continue
+                    lo_ = sc.min
+                    raw_of[sc.name] = (lambda v, lo_=lo_, k=sc.kind: v if k == "no_offset" or lo_ >= 0 else v - lo_)
                 units = list(sc.ranges) if sc.kind == "dependent" else [None]
                 for unit in units:
                     extra = {}
@@ -173,7 +185,7 @@ def run_type(res, T, rng, tier):
                             continue
                         if sc.kind != "enum" and not isinstance(exc, ControllerValueError):
                             res.violation(f"C09:wrong-error:{K}:{path}", f"{K} = {value!r} raised {exc!r}, expected ControllerValueError", case)
-                        if path == "setattr":
+                        if path in ("setattr", "set_raw"):
                             now = getattr(m, sc.name)
                             if _val(now) != _val(prev) or type(now) is not type(prev):
                                 res.violation(f"C09:prev-lost:{K}", f"rejected {K} = {value!r} left {now!r}, previous was {prev!r}", case)
